@@ -70,6 +70,7 @@ def run(idx: ProgramIndex, rep: Report, tier: str):
     block_shapes(idx, rep)
     own_batch_shape(idx, rep)
     sub_kernels_replaced_in_place(idx, rep)
+    active_dims_order(idx, rep)
 
 
 # ---- C06-1 ---------------------------------------------------------------------------------------------------------
@@ -809,3 +810,75 @@ def sub_kernels_replaced_in_place(idx: ProgramIndex, rep: Report):
                 rep.add("C06-12", "%s:Kernel.%s[sub-kernel stored under a module path]" % (K.module.name, mname), "%s:%d" % (fi.module.relpath, dotted.lineno), False,
                         "`%s`: the names of %s are dotted module paths for composite kernels; setting an attribute of that literal name registers an orphan module and leaves the member untouched: (RBFKernel() + MaternKernel()).expand_batch([2]) reports batch shape (2,) while its members keep (), evaluating it raises; kernel(x)[i, j] of a sum / product with batch shapes raises IndexError" % (" ".join(src(dotted).split())[:70], it.split("(")[0].split(".")[-1] + "()"), {})
     rep.add("C06-12", "%s:Kernel[sub-kernel replacement sites]" % K.module.name, K.where, True, "%d site(s) use the names of named_sub_kernels() as attribute names" % n, {"sites": n}, trivial=True)
+
+
+# ---- C06-13 --------------------------------------------------------------------------------------------------------
+def active_dims_order(idx: ProgramIndex, rep: Report):
+    """active_dims is a LIST of column positions: column i of what the kernel sees is column active_dims[i] of the input, so that ARD
+    lengthscale i belongs to it.  The selection has to be an index selection with the whole list (index_select / x[..., active_dims]); a
+    slice whose bounds are taken from entries of active_dims (first .. last) selects the right set only for ascending gap-free lists and
+    loses the order for a permuted one."""
+    rep.rule("C06-13", "active_dims is applied as an index selection with the whole list, in the order given: no slice whose bounds are read off entries of active_dims")
+    n = 0
+    for fi in sorted(idx.all_functions(), key=lambda f: (f.module.name, f.qualname)):
+        if not any(isinstance(x, ast.Attribute) and x.attr == "active_dims" for x in ast.walk(fi.node)):
+            continue
+        # names that are pure functions of active_dims (its entries, its length ...): every leaf of their defining expressions is active_dims,
+        # such a name, or a constant - data selected WITH active_dims is not among them
+        derived = set()
+
+        def pure(e) -> bool:
+            leaves_ok = True
+            has_ad = False
+            for x in ast.walk(e):
+                if isinstance(x, ast.Attribute) and x.attr == "active_dims":
+                    has_ad = True
+                elif isinstance(x, ast.Name):
+                    if x.id in derived:
+                        has_ad = True
+                    elif x.id not in ("self", "int", "len", "min", "max", "range", "torch", "list", "tuple"):
+                        leaves_ok = False
+            return leaves_ok and has_ad
+        changed = True
+        while changed:
+            changed = False
+            for a in ast.walk(fi.node):
+                if not isinstance(a, ast.Assign):
+                    continue
+                pairs = []
+                for t in a.targets:
+                    if isinstance(t, ast.Name):
+                        pairs.append((t, a.value))
+                    elif isinstance(t, ast.Tuple) and isinstance(a.value, ast.Tuple) and len(t.elts) == len(a.value.elts):
+                        pairs += list(zip(t.elts, a.value.elts))
+                for t, v in pairs:
+                    if isinstance(t, ast.Name) and t.id not in derived and pure(v):
+                        derived.add(t.id)
+                        changed = True
+        n += 1
+        bad = []
+        for x in ast.walk(fi.node):
+            if isinstance(x, ast.Subscript):
+                for sl in ([x.slice] if isinstance(x.slice, ast.Slice) else [e for e in getattr(x.slice, "elts", []) if isinstance(e, ast.Slice)]):
+                    for b in (sl.lower, sl.upper):
+                        if b is not None and any((isinstance(y, ast.Name) and y.id in derived) or (isinstance(y, ast.Attribute) and y.attr == "active_dims") for y in ast.walk(b)):
+                            bad.append(x)
+        # slices of active_dims ITSELF (active_dims[1:]) select entries of the list, not columns of the data: only subscripts of other values count
+        def rooted_in_active_dims(e) -> bool:
+            while True:
+                if isinstance(e, ast.Call) and isinstance(e.func, ast.Attribute):
+                    e = e.func.value
+                elif isinstance(e, ast.Subscript):
+                    e = e.value
+                elif isinstance(e, ast.Attribute) and e.attr != "active_dims":
+                    e = e.value
+                else:
+                    break
+            return isinstance(e, ast.Attribute) and e.attr == "active_dims"
+        index_names = {t.id for a in ast.walk(fi.node) if isinstance(a, ast.Assign) and rooted_in_active_dims(a.value) for t in a.targets if isinstance(t, ast.Name)}
+        bad = [x for x in bad if not ((isinstance(x.value, ast.Attribute) and x.value.attr == "active_dims") or (isinstance(x.value, ast.Name) and x.value.id in index_names))]
+        if bad:
+            rep.add("C06-13", "%s:%s[columns sliced between entries of active_dims]" % (fi.module.name, fi.qualname), "%s:%d" % (fi.module.relpath, bad[0].lineno), False,
+                    "`%s` selects the columns between two entries of active_dims: for a permuted list ([0, 2, 1, 3]) or one with repeats the columns come out in ascending order, so ARD lengthscale i scales another column than active_dims[i] (0.15-0.57 off for RBF / Matern / RQ with ARD)" % " ".join(src(bad[0]).split())[:70], {})
+    rep.add("C06-13", "gpytorch:<functions that read active_dims>", "gpytorch/", True, "%d function(s) inspected" % n, {"functions": n}, trivial=True)
+    rep.floor("C06-13", "functions that read active_dims", n, 5)
